@@ -1946,6 +1946,18 @@ func c14Tasks(tier string) []mc.Task {
 			}
 		}
 	}})
+	// every letter in both cases: all one-column alignments of 3 rows over {X, x, -} for each letter X (case folding of the
+	// counts and of the majority character is the same for all 26 letters), both alphabets
+	ts = append(ts, mc.Task{Name: "letters#both-cases", Run: func(c *mc.Ctx) {
+		for ch := byte('A'); ch <= 'Z'; ch++ {
+			forEachStringLen(string([]byte{ch, ch + 32, '-'}), 3, nil, func(s []byte) bool {
+				for _, alpha := range []int{align.NUCLEOTIDS, align.AMINOACIDS} {
+					c14Alignment(c, alpha, c14SplitRows(s, 3, 1))
+				}
+				return !c.Expired()
+			})
+		}
+	}})
 	ts = append(ts, mc.Task{Name: "long-alignment#columnwise", Run: func(c *mc.Ctx) {
 		var lens []int
 		for l := 5; l <= 40; l++ {
@@ -2204,7 +2216,7 @@ func init() {
 	mc.Register(&mc.Prop{
 		ID:    "C14",
 		Level: "model_checking",
-		Rule: cliStreamRule[1:] + "(Also: per-site statistics of 5-row alignments of every length 5..40, 63..65, 255..257 equal, site by site, those of the column alone; count profiles read from files of 3..250 sites through countprofile.FromFile - every count, and the per-sequence unique counts against the profile built from the same alignment; reference-relative counts and lists for every ordered pair of symbols over the IUPAC nucleotide alphabet (without U) in both cases and the gap, alone and as second column.) (Free-running complement under the race detector: 8 goroutines doing this property's operations on objects of their own must get the values the same work gives alone.)  Command line: goalign stats gaps (all five modes), compute entropy (-a, -g), stats maxchar and consensus (--ignore-gaps, --ignore-n), stats mutations (--unique, --ref-sequence each of the first two rows) on every 2x2 alignment over {A,C,-,W} and four others, both alphabets: the printed text must be what the documented library calls return, rendered as the command renders it. " + "Alignments (nucleotide and protein alphabet each; W = the alphabet's wildcard, N resp. X): all with L=1, n<=4 rows over {A,a,C,-,N,X,.}; L=2, n<=3 over the same 7 characters; L=3, n=1 over the 7 and n=2 over {A,a,C,-,W}; L=0, n<=2 " +
+		Rule: cliStreamRule[1:] + "(Also: every one-column alignment of 3 rows over {X, x, -} for each of the 26 letters X, both alphabets; per-site statistics of 5-row alignments of every length 5..40, 63..65, 255..257 equal, site by site, those of the column alone; count profiles read from files of 3..250 sites through countprofile.FromFile - every count, and the per-sequence unique counts against the profile built from the same alignment; reference-relative counts and lists for every ordered pair of symbols over the IUPAC nucleotide alphabet (without U) in both cases and the gap, alone and as second column.) (Free-running complement under the race detector: 8 goroutines doing this property's operations on objects of their own must get the values the same work gives alone.)  Command line: goalign stats gaps (all five modes), compute entropy (-a, -g), stats maxchar and consensus (--ignore-gaps, --ignore-n), stats mutations (--unique, --ref-sequence each of the first two rows) on every 2x2 alignment over {A,C,-,W} and four others, both alphabets: the printed text must be what the documented library calls return, rendered as the command renders it. " + "Alignments (nucleotide and protein alphabet each; W = the alphabet's wildcard, N resp. X): all with L=1, n<=4 rows over {A,a,C,-,N,X,.}; L=2, n<=3 over the same 7 characters; L=3, n=1 over the 7 and n=2 over {A,a,C,-,W}; L=0, n<=2 " +
 			"[thorough adds L=1,n=5 and L=3,n=2 over the 7 characters; L=2,n=4 over {A,a,C,-,W}; L=3,n=3 and L=4,n=2 over {A,C,-,W}]. " +
 			"Per alignment: MaxCharStats and Consensus with all 4 (ignoreGaps,ignoreNs), Entropy for every site in [-1,L] x removeGaps, each call executed under EVERY map iteration order at every map range it reaches (all k! orders for k<=4 keys, the 2k rotations of the sorted and reversed order beyond; unbounded product over the ranges of one call; the same alignment object for all orders), " +
 			"every leaf compared with the naive oracle and all leaves of a call with each other (exact; 1e-12 for Entropy/Pssm); CharStats, CharStatsSeq (index -1..n), CharStatsSite (site -1..L), UniqueCharacters, the count profile (NameAt/NameIndex/Count/CountAt with site -1..L, CheckLength), NbVariableSites, InformativeSites, AvgAllelesPerSite, NumGaps/FromStart/FromEnd/Openning, " +
